@@ -7,11 +7,14 @@ package sym
 import (
 	"fmt"
 	"math/big"
+	"os"
 	"sort"
 	"strings"
 	"sync"
 	"time"
 )
+
+var debugSites = os.Getenv("GOSYM_DEBUG_SITE")
 
 // control-flow panics of the engine
 type pathEnd struct {
@@ -73,6 +76,99 @@ type path struct {
 	notes    []string
 	sched_   *scheduler
 	ended    bool
+	pending  []pendingAssert
+	known    map[int]bool // literal term id -> truth value implied syntactically by the path condition
+}
+
+// learn records the literals that c makes true.
+func (p *path) learn(c *Term) {
+	if p.known == nil {
+		p.known = map[int]bool{}
+	}
+	switch c.op {
+	case "and":
+		for _, a := range c.args {
+			p.learn(a)
+		}
+		return
+	case "not":
+		p.known[c.args[0].id] = false
+		if c.args[0].op == "or" {
+			for _, a := range c.args[0].args {
+				p.learn(p.st().Not(a))
+			}
+		}
+	}
+	p.known[c.id] = true
+}
+
+// decided reports whether the truth of c follows syntactically from the
+// path condition.
+func (p *path) decided(c *Term) (val bool, ok bool) {
+	return p.decidedD(c, 4)
+}
+
+func (p *path) decidedD(c *Term, depth int) (val bool, ok bool) {
+	if c.isTrue() {
+		return true, true
+	}
+	if c.isFalse() {
+		return false, true
+	}
+	if v, ok := p.known[c.id]; ok {
+		return v, true
+	}
+	if depth == 0 {
+		return false, false
+	}
+	switch c.op {
+	case "not":
+		if v, ok := p.decidedD(c.args[0], depth-1); ok {
+			return !v, true
+		}
+	case "and":
+		all := true
+		for _, a := range c.args {
+			v, ok := p.decidedD(a, depth-1)
+			if ok && !v {
+				return false, true
+			}
+			if !ok {
+				all = false
+			}
+		}
+		if all {
+			return true, true
+		}
+	case "or":
+		all := true
+		for _, a := range c.args {
+			v, ok := p.decidedD(a, depth-1)
+			if ok && v {
+				return true, true
+			}
+			if !ok {
+				all = false
+			}
+		}
+		if all {
+			return false, true
+		}
+	}
+	return false, false
+}
+
+// addPCnoSolver records facts the solver has just proved to follow from
+// the path condition (no need to assert them).
+func (p *path) addPCnoSolver(c *Term) {
+	p.learn(c)
+}
+
+// addPC appends c to the path condition and tells the solver.
+func (p *path) addPC(c *Term) {
+	p.pc = append(p.pc, c)
+	p.learn(c)
+	p.w.solver.Assert(c)
 }
 
 func (p *path) st() *Store { return p.w.st }
@@ -85,6 +181,12 @@ func (p *path) assume(c *Term, check bool) {
 	if c.isFalse() {
 		panic(pathEnd{"assume-false", ""})
 	}
+	if v, ok := p.decided(c); ok {
+		if !v {
+			panic(pathEnd{"assume-false", ""})
+		}
+		return
+	}
 	if check {
 		switch p.w.solver.Check(c) {
 		case Unsat:
@@ -93,8 +195,7 @@ func (p *path) assume(c *Term, check bool) {
 			p.w.stats.unknownFeas++
 		}
 	}
-	p.pc = append(p.pc, c)
-	p.w.solver.Assert(c)
+	p.addPC(c)
 }
 
 // choose picks one of n options.  conds[i] (may be nil = true) is the
@@ -112,8 +213,9 @@ func (p *path) choose(n int, conds []*Term, what string) int {
 		}
 		if conds != nil && conds[d] != nil {
 			// forced decision: feasibility was established when it was queued
-			p.pc = append(p.pc, conds[d])
-			p.w.solver.Assert(conds[d])
+			if v, ok := p.decided(conds[d]); !ok || !v {
+				p.addPC(conds[d])
+			}
 		}
 		return d
 	}
@@ -124,17 +226,36 @@ func (p *path) choose(n int, conds []*Term, what string) int {
 			feas = append(feas, i)
 			continue
 		}
-		if conds[i].isFalse() {
-			continue
-		}
-		if conds[i].isTrue() {
-			feas = append(feas, i)
+		if v, ok := p.decided(conds[i]); ok {
+			if v {
+				feas = append(feas, i)
+			}
 			continue
 		}
 		// shortcut: if all others were infeasible and pc is sat, the last must be feasible
 		if i == n-1 && len(feas) == 0 && p.exhaustive(conds) {
 			feas = append(feas, i)
 			continue
+		}
+		p.w.sites[what]++
+		if debugSites != "" && strings.Contains(what, debugSites) && p.w.sites[what] <= 6 {
+			c := conds[i]
+			fmt.Fprintf(os.Stderr, "QUERY at %s: id=%d op=%s", what, c.id, c.op)
+			for _, a := range c.args {
+				_, k := p.known[a.id]
+				fmt.Fprintf(os.Stderr, " [arg id=%d op=%s known=%v]", a.id, a.op, k)
+				for _, b := range a.args {
+					_, k := p.known[b.id]
+					fmt.Fprintf(os.Stderr, " {id=%d op=%s known=%v %s}", b.id, b.op, k, clip(p.st().inline(b, 3), 200))
+				}
+			}
+			var ks []int
+			for id, v := range p.known {
+				if !v {
+					ks = append(ks, id)
+				}
+			}
+			fmt.Fprintf(os.Stderr, " knownFalse=%v\n", ks)
 		}
 		switch p.w.solver.Check(conds[i]) {
 		case Sat:
@@ -155,9 +276,10 @@ func (p *path) choose(n int, conds []*Term, what string) int {
 	d := feas[0]
 	p.decs = append(p.decs, d)
 	p.pos++
-	if conds != nil && conds[d] != nil && !conds[d].isTrue() {
-		p.pc = append(p.pc, conds[d])
-		p.w.solver.Assert(conds[d])
+	if conds != nil && conds[d] != nil {
+		if v, ok := p.decided(conds[d]); !ok || !v {
+			p.addPC(conds[d])
+		}
 	}
 	return d
 }
@@ -172,11 +294,8 @@ func (p *path) exhaustive(conds []*Term) bool {
 
 // branch decides a symbolic condition.
 func (p *path) branch(c *Term, what string) bool {
-	if c.isTrue() {
-		return true
-	}
-	if c.isFalse() {
-		return false
+	if v, ok := p.decided(c); ok {
+		return v
 	}
 	st := p.st()
 	return p.choose(2, []*Term{c, st.Not(c)}, what) == 0
@@ -209,8 +328,7 @@ func (p *path) concretize(t *Term, limit int, what string) *big.Int {
 				p.pos++
 				vv := big.NewInt(int64(ex))
 				c := st.Not(st.Eq(t, p.constLike(t, vv)))
-				p.pc = append(p.pc, c)
-				p.w.solver.Assert(c)
+				p.addPC(c)
 				continue
 			}
 			// d == 0: equal to the value stored next
@@ -219,8 +337,7 @@ func (p *path) concretize(t *Term, limit int, what string) *big.Int {
 			p.pos++
 			v = big.NewInt(int64(ex))
 			c := st.Eq(t, p.constLike(t, v))
-			p.pc = append(p.pc, c)
-			p.w.solver.Assert(c)
+			p.addPC(c)
 			return v
 		}
 		r := p.w.solver.Check()
@@ -244,8 +361,7 @@ func (p *path) concretize(t *Term, limit int, what string) *big.Int {
 		}
 		p.decs = append(p.decs, 0, int(v.Int64()))
 		p.pos += 2
-		p.pc = append(p.pc, eq)
-		p.w.solver.Assert(eq)
+		p.addPC(eq)
 		return v
 	}
 }
@@ -404,12 +520,13 @@ type HarnessResult struct {
 	Known      map[string]int     // known-finding id -> times hit
 	KnownCex   map[string]Violation
 	Notes      map[string]int
+	QuerySites map[string]int
 }
 
 func newHarnessResult(name string) *HarnessResult {
 	return &HarnessResult{Harness: name, violSeen: map[string]int{}, Reached: map[string]int{},
 		AssertsOK: map[string]int{}, Unwind: map[string]int{}, Funcs: map[string]bool{},
-		Known: map[string]int{}, KnownCex: map[string]Violation{}, Notes: map[string]int{}}
+		Known: map[string]int{}, KnownCex: map[string]Violation{}, Notes: map[string]int{}, QuerySites: map[string]int{}}
 }
 
 func (r *HarnessResult) addViolation(v Violation) {
